@@ -24,7 +24,7 @@ def deliver (s : State) (k : Nat) : State :=
 
 /-- a step never gives input back, and a silent step (nothing flushed, no error) consumes some. -/
 def Progress (s s' : State) : Prop :=
-  s'.rd.bits.length ≤ s.rd.bits.length ∧
+  (s'.err = none → s'.rd.bits.length ≤ s.rd.bits.length) ∧
   (s'.toRead = [] → s'.err = none → s'.rd.bits.length < s.rd.bits.length)
 
 inductive Trace (sd : ByteArray) : State → List UInt8 → BErr → Prop
@@ -99,18 +99,18 @@ theorem Trace.partial {sd : ByteArray} {s : State} {Y : List UInt8} {e : BErr} (
 /-- what one `Read(buf)`, `len(buf) = n`, achieves from a state with trace `Y`. -/
 def ReadOK (sd : ByteArray) (e : BErr) (Y : List UInt8) (B n : Nat)
     (r : State × List UInt8 × Option BErr) : Prop :=
-  ∃ Y', Y = r.2.1 ++ Y' ∧ Trace sd r.1 Y' e ∧ r.1.rd.bits.length ≤ B ∧
+  ∃ Y', Y = r.2.1 ++ Y' ∧ Trace sd r.1 Y' e ∧ (r.1.err = none → r.1.rd.bits.length ≤ B) ∧
     (∀ err, r.2.2 = some err → err = e ∧ r.2.1 = [] ∧ Y' = [] ∧ r.1.toRead = [] ∧ r.1.err = some e) ∧
     (r.2.2 = none → 0 < n → r.2.1 ≠ [])
 
 theorem read_ok (sd : ByteArray) (e : BErr) (n : Nat) :
-    ∀ (fuel : Nat) (s : State) (Y : List UInt8) (B : Nat), Trace sd s Y e → s.rd.bits.length ≤ B →
-      s.rd.bits.length + 2 ≤ fuel → ReadOK sd e Y B n (read sd fuel s n) := by
+    ∀ (fuel : Nat) (s : State) (Y : List UInt8) (B : Nat), Trace sd s Y e → (s.err = none → s.rd.bits.length ≤ B) →
+      (s.err = none → s.rd.bits.length + 2 ≤ fuel) → 1 ≤ fuel → ReadOK sd e Y B n (read sd fuel s n) := by
   intro fuel
   induction fuel with
-  | zero => intro s Y B _ _ hf; omega
+  | zero => intro s Y B _ _ _ hf; omega
   | succ f ih =>
-    intro s Y B T hB hf
+    intro s Y B T hB hf _
     rw [read_succ]
     by_cases hT : s.toRead = []
     · have c1 : (!s.toRead.isEmpty) = false := by simp [hT]
@@ -119,12 +119,15 @@ theorem read_ok (sd : ByteArray) (e : BErr) (n : Nat) :
       · -- a step
         simp only [hE, ne_eq, not_true_eq_false, if_false]
         obtain ⟨hp, T'⟩ := T.inv_step hT hE
+        have hB0 := hB hE
+        have hf0 := hf hE
         by_cases hq : (stepOnce sd s).toRead = [] ∧ (stepOnce sd s).err = none
         · have hlt := hp.2 hq.1 hq.2
-          exact ih _ Y B T' (by omega) (by omega)
+          exact ih _ Y B T' (fun _ => by omega) (fun _ => by omega) (by omega)
         · -- the next round returns at once
-          have hB' : (stepOnce sd s).rd.bits.length ≤ B := by have := hp.1; omega
-          match f, hf with
+          have hB' : (stepOnce sd s).err = none → (stepOnce sd s).rd.bits.length ≤ B := by
+            intro h; have := hp.1 h; omega
+          match f, hf0 with
           | f'+1, _ =>
             rw [read_succ]
             by_cases hT' : (stepOnce sd s).toRead = []
@@ -194,18 +197,19 @@ theorem recBytes_cons (r : ReadRec) (recs : List ReadRec) : recBytes (r :: recs)
 
 theorem runReads_correct (sd : ByteArray) (e : BErr) (rfuel : Nat) :
     ∀ (fuel : Nat) (s : State) (Y : List UInt8) (sched : List Nat) (acc : List ReadRec), Trace sd s Y e →
-      s.rd.bits.length + 2 ≤ rfuel →
+      (s.err = none → s.rd.bits.length + 2 ≤ rfuel) → 2 ≤ rfuel →
       (∀ n, sched.getLast? = some n → 0 < n) →
       Y.length + sched.length + 2 ≤ fuel →
       ∃ recs s', runReads sd rfuel fuel s sched acc = (recs, s') ∧ recBytes recs = recBytes acc ++ Y ∧
         recs.head?.bind (·.err) = some e ∧ s'.toRead = [] ∧ s'.err = some e := by
   intro fuel
   induction fuel with
-  | zero => intro s Y sched acc _ _ _ hf; omega
+  | zero => intro s Y sched acc _ _ _ _ hf; omega
   | succ f ih =>
-    intro s Y sched acc T hB hs hf
+    intro s Y sched acc T hB h2 hs hf
     rw [runReads_succ]
-    have hR := read_ok sd e (sched.headD 4096) rfuel s Y (rfuel - 2) T (by omega) (by omega)
+    have hR := read_ok sd e (sched.headD 4096) rfuel s Y (rfuel - 2) T (fun h => by have := hB h; omega)
+      (fun h => hB h) (by omega)
     rcases hr : read sd rfuel s (sched.headD 4096) with ⟨s', out, r⟩
     rw [hr] at hR
     obtain ⟨Y', hY, T', hB', hErr, hNone⟩ := hR
@@ -229,22 +233,23 @@ theorem runReads_correct (sd : ByteArray) (e : BErr) (rfuel : Nat) :
           omega
       obtain ⟨recs, s'', h1, h2, h3, h4, h5⟩ :=
         ih s' Y' _ ({ out := out, err := none, inOff := s'.inOff, outOff := s'.outOff } :: acc) T'
-          (by omega) (sched_next_last sched hs) hlen
+          (fun h => by have := hB' h; omega) h2 (sched_next_last sched hs) hlen
       refine ⟨recs, s'', h1, ?_, h3, h4, h5⟩
       rw [h2, recBytes_cons, hY, List.append_assoc]
 
 /-- an unfinished run (any fuel) has delivered a prefix of the trace. -/
 theorem runReads_prefix (sd : ByteArray) (e : BErr) (rfuel : Nat) :
     ∀ (fuel : Nat) (s : State) (Y : List UInt8) (sched : List Nat) (acc : List ReadRec), Trace sd s Y e →
-      s.rd.bits.length + 2 ≤ rfuel →
+      (s.err = none → s.rd.bits.length + 2 ≤ rfuel) → 2 ≤ rfuel →
       ∃ Y', recBytes (runReads sd rfuel fuel s sched acc).1 ++ Y' = recBytes acc ++ Y := by
   intro fuel
   induction fuel with
-  | zero => intro s Y sched acc _ _; rw [runReads]; exact ⟨Y, rfl⟩
+  | zero => intro s Y sched acc _ _ _; rw [runReads]; exact ⟨Y, rfl⟩
   | succ f ih =>
-    intro s Y sched acc T hB
+    intro s Y sched acc T hB h2
     rw [runReads_succ]
-    have hR := read_ok sd e (sched.headD 4096) rfuel s Y (rfuel - 2) T (by omega) (by omega)
+    have hR := read_ok sd e (sched.headD 4096) rfuel s Y (rfuel - 2) T (fun h => by have := hB h; omega)
+      (fun h => hB h) (by omega)
     rcases hr : read sd rfuel s (sched.headD 4096) with ⟨s', out, r⟩
     rw [hr] at hR
     obtain ⟨Y', hY, T', hB', _, _⟩ := hR
@@ -253,7 +258,8 @@ theorem runReads_prefix (sd : ByteArray) (e : BErr) (rfuel : Nat) :
     | some err => exact ⟨Y', by simp only; rw [recBytes_cons, hY, List.append_assoc]⟩
     | none =>
       obtain ⟨Y'', h⟩ := ih s' Y' (if sched.length > 1 then sched.tail else sched)
-        ({ out := out, err := none, inOff := s'.inOff, outOff := s'.outOff } :: acc) T' (by omega)
+        ({ out := out, err := none, inOff := s'.inOff, outOff := s'.outOff } :: acc) T'
+        (fun h => by have := hB' h; omega) h2
       exact ⟨Y'', by simp only; rw [h, recBytes_cons, hY, List.append_assoc]⟩
 
 theorem length_ofBytes : ∀ l : List UInt8, (Bits.ofBytes l).length = 8 * l.length
@@ -273,7 +279,8 @@ theorem run_of_trace (sd : ByteArray) (bytes : List UInt8) (full : List UInt8) (
     (fuel : Nat) (hf : full.length + sched.length + 2 ≤ fuel) :
     ∃ s', run sd fuel bytes sched = (full, some e, s') ∧ s'.toRead = [] ∧ s'.err = some e := by
   obtain ⟨recs, s', h1, h2, h3, h4, h5⟩ :=
-    runReads_correct sd e (readFuel bytes) fuel (init bytes) full sched [] T (init_bits_le bytes) hs hf
+    runReads_correct sd e (readFuel bytes) fuel (init bytes) full sched [] T (fun _ => init_bits_le bytes)
+      (by unfold readFuel; omega) hs hf
   refine ⟨s', ?_, h4, h5⟩
   simp only [run, h1]
   have : recBytes recs = full := by rw [h2]; simp [recBytes]
@@ -293,7 +300,8 @@ theorem run_schedule_independent (sd : ByteArray) (bytes : List UInt8) (full : L
 theorem run_prefix (sd : ByteArray) (bytes : List UInt8) (full : List UInt8) (e : BErr)
     (T : Trace sd (init bytes) full e) (sched : List Nat) (fuel : Nat) :
     (run sd fuel bytes sched).1 <+: full := by
-  obtain ⟨Y', h⟩ := runReads_prefix sd e (readFuel bytes) fuel (init bytes) full sched [] T (init_bits_le bytes)
+  obtain ⟨Y', h⟩ := runReads_prefix sd e (readFuel bytes) fuel (init bytes) full sched [] T (fun _ => init_bits_le bytes)
+    (by unfold readFuel; omega)
   refine ⟨Y', ?_⟩
   have : (run sd fuel bytes sched).1 = recBytes (runReads sd (readFuel bytes) fuel (init bytes) sched []).1 := by
     simp only [run]; rfl
